@@ -9,7 +9,7 @@ for id in $ids; do
   tier=$(python3 -c "import json;print(json.load(open('seeded/$id/meta.json'))['detected_by'].get('tier','quick'))")
   if ! git -C /repo apply "$PWD/seeded/$id/patch.diff"; then echo "| $id | patch does not apply | | |"; continue; fi
   s=$(date +%s)
-  out=$(./check "$id" --tier "$tier" 2>&1); rc=$?
+  out=$(./check "${id%%-*}" --tier "$tier" 2>&1); rc=$?
   e=$(date +%s)
   git -C /repo checkout -- .
   fps=$(echo "$out" | grep -E '^  fingerprint=' | sed -E 's/^  fingerprint=([^ ]+) instances=.*/\1/' | cut -c1-110 | tr '\n' ' ')
